@@ -47,8 +47,10 @@ pub trait Visitor<'de>: Sized {
     fn visit_u64(self, v: u64) -> (r: Result<Self::Value>) ensures r == self.on_u64(v);
     fn visit_i64(self, v: i64) -> (r: Result<Self::Value>) ensures r == self.on_i64(v);
     fn visit_f64(self, v: f64) -> (r: Result<Self::Value>) ensures r == self.on_f64(v);
-    fn visit_i128(self, v: i128) -> (r: Result<Self::Value>);
-    fn visit_u128(self, v: u128) -> (r: Result<Self::Value>);
+    spec fn on_i128(&self, v: i128) -> Result<Self::Value>;
+    spec fn on_u128(&self, v: u128) -> Result<Self::Value>;
+    fn visit_i128(self, v: i128) -> (r: Result<Self::Value>) ensures r == self.on_i128(v);
+    fn visit_u128(self, v: u128) -> (r: Result<Self::Value>) ensures r == self.on_u128(v);
 }
 
 // ---- exact integers: what a number text that is a plain integer in range denotes
@@ -77,14 +79,58 @@ pub fn parse_number(data: &[u8], index: &mut usize, negative: bool) -> (res: cor
             &&& (negative && 0 < v <= 0x8000_0000_0000_0000 ==> res.is_ok() && res.unwrap() is Signed && res.unwrap()->Signed_0 == -v)
         }),
 { unimplemented!() }
-// String::push of an ASCII digit (std): opaque
+// ---- the digit buffer of the 128-bit path: a String that only ever receives ASCII bytes; its content as bytes
+pub uninterp spec fn sview(s: String) -> Seq<u8>;
+// String::new / String::push of an ASCII byte (std): assumed to do what they say
 #[verifier::external_body]
-pub fn string_push(buf: &mut String, c: u8) { unimplemented!() }
-// str::parse::<i128> / ::<u128> (std): opaque
+pub fn string_new() -> (r: String) ensures sview(r) == Seq::<u8>::empty(), { unimplemented!() }
 #[verifier::external_body]
-pub fn parse_i128(buf: &String) -> (r: core::result::Result<i128, ()>) { unimplemented!() }
+pub fn string_push(buf: &mut String, c: u8) ensures sview(*final(buf)) == sview(*old(buf)).push(c), { unimplemented!() }
+/// an optional `-` and then at least one digit, nothing else
+pub open spec fn int_text(v: Seq<u8>) -> bool {
+    let k: int = if v.len() > 0 && v[0] == 0x2d { 1 } else { 0 };
+    k < v.len() && forall|j: int| k <= j < v.len() ==> is_digit(#[trigger] v[j])
+}
+pub open spec fn int_text_val(v: Seq<u8>) -> int {
+    if v.len() > 0 && v[0] == 0x2d { -dec_val(v, 1, v.len() as int) } else { dec_val(v, 0, v.len() as int) }
+}
+// str::parse::<i128> / ::<u128> (std) on such a text: the decimal value when it fits, an error otherwise (assumed)
 #[verifier::external_body]
-pub fn parse_u128(buf: &String) -> (r: core::result::Result<u128, ()>) { unimplemented!() }
+pub fn parse_i128(buf: &String) -> (r: core::result::Result<i128, ()>)
+    ensures int_text(sview(*buf)) ==> (r.is_ok() <==> -0x8000_0000_0000_0000_0000_0000_0000_0000 <= int_text_val(sview(*buf)) <= 0x7fff_ffff_ffff_ffff_ffff_ffff_ffff_ffff)
+        && (r.is_ok() ==> r.unwrap() == int_text_val(sview(*buf))),
+{ unimplemented!() }
+#[verifier::external_body]
+pub fn parse_u128(buf: &String) -> (r: core::result::Result<u128, ()>)
+    ensures int_text(sview(*buf)) ==> (r.is_ok() <==> 0 <= int_text_val(sview(*buf)) <= 0xffff_ffff_ffff_ffff_ffff_ffff_ffff_ffff)
+        && (r.is_ok() ==> r.unwrap() == int_text_val(sview(*buf))),
+{ unimplemented!() }
+// every byte of a digit run is a digit
+pub proof fn lemma_digits_all(s: Seq<u8>, i: int)
+    requires 0 <= i <= s.len(),
+    ensures forall|j: int| i <= j < digits_end(s, i) ==> is_digit(#[trigger] s[j]),
+    decreases s.len() - i
+{
+    if i < s.len() && is_digit(s[i]) { lemma_digits_all(s, i + 1); }
+}
+pub proof fn lemma_dec_val_nonneg(s: Seq<u8>, a: int, b: int)
+    requires 0 <= a <= b <= s.len(), forall|j: int| a <= j < b ==> is_digit(#[trigger] s[j]),
+    ensures dec_val(s, a, b) >= 0,
+    decreases b - a
+{
+    if b > a { lemma_dec_val_nonneg(s, a, b - 1); }
+}
+// dec_val only looks at the digits it is given
+pub proof fn lemma_dec_val_shift(a: Seq<u8>, a0: int, b: Seq<u8>, b0: int, n: int)
+    requires 0 <= n, 0 <= a0, a0 + n <= a.len(), 0 <= b0, b0 + n <= b.len(), forall|j: int| 0 <= j < n ==> #[trigger] a[a0 + j] == b[b0 + j],
+    ensures dec_val(a, a0, a0 + n) == dec_val(b, b0, b0 + n),
+    decreases n
+{
+    if n > 0 { lemma_dec_val_shift(a, a0, b, b0, n - 1); assert(a[a0 + (n - 1)] == b[b0 + (n - 1)]); }
+}
+/// the integer literal of the 128-bit path at d (first digit): `0` not followed by a digit, or a run without leading zero
+pub open spec fn int128_lit(s: Seq<u8>, d: int) -> bool { dig_at(s, d) && (s[d] == 0x30 ==> !dig_at(s, d + 1)) }
+pub open spec fn int128_end(s: Seq<u8>, d: int) -> int { if s[d] == 0x30 { d + 1 } else { digits_end(s, d) } }
 // `err.into()`: sonic_number::Error -> ErrorCode (a two-armed match, src/error.rs)
 #[verifier::external_body]
 pub fn num_err_into(e: NumError) -> (c: ErrorCode) { unimplemented!() }
@@ -146,25 +192,75 @@ impl<'de, R: Reader<'de>> Deserializer<R> {
         requires old(self).parser.pinv(),
         ensures final(self).parser.pinv(), final(self).parser.same_doc(&old(self).parser),
             // a 128-bit integer literal: `0` not followed by a digit, or a digit run without leading zero; the reader
-            // ends right after it (sign handled by the caller; fraction / exponent are left for the trailing check)
+            // ends right after it (sign handled by the caller; fraction / exponent are left for the trailing check);
+            // exactly its digits are appended to the buffer
             ({
                 let s = old(self).parser.read.data();
                 let i = old(self).parser.read.idx() as int;
-                &&& (res.is_ok() <==> dig_at(s, i) && (s[i] == 0x30 ==> !dig_at(s, i + 1)))
-                &&& (res.is_ok() ==> final(self).parser.read.idx() == (if s[i] == 0x30 { i + 1 } else { digits_end(s, i) }))
+                &&& (res.is_ok() <==> int128_lit(s, i))
+                &&& (res.is_ok() ==> final(self).parser.read.idx() == int128_end(s, i)
+                        && sview(*final(buf)) == sview(*old(buf)) + s.subrange(i, int128_end(s, i)))
             }),
+//@body
+        let ghost s = self.parser.read.data();
+        let ghost i0 = self.parser.read.idx() as int;
+        let ghost v0 = sview(*buf);
+        proof { if i0 < s.len() { lemma_digits_end_bounds(s, i0); assert(s.subrange(i0, i0 + 1) =~= seq![s[i0]]); assert(v0.push(s[i0]) =~= v0 + seq![s[i0]]); } }
 //@loop 1
-                    invariant self.parser.pinv(), self.parser.same_doc(&old(self).parser),
-                        old(self).parser.read.idx() < self.parser.read.idx() <= self.parser.read.data().len(),
-                        digits_end(self.parser.read.data(), old(self).parser.read.idx() as int) == digits_end(self.parser.read.data(), self.parser.read.idx() as int),
-                    ensures !dig_at(self.parser.read.data(), self.parser.read.idx() as int),
-                        self.parser.pinv(), self.parser.same_doc(&old(self).parser), old(self).parser.read.idx() < self.parser.read.idx(),
-                        digits_end(self.parser.read.data(), old(self).parser.read.idx() as int) == digits_end(self.parser.read.data(), self.parser.read.idx() as int),
-                    decreases self.parser.read.data().len() - self.parser.read.idx(),
+                    invariant self.parser.pinv(), self.parser.same_doc(&old(self).parser), s == self.parser.read.data(), i0 == old(self).parser.read.idx(),
+                        i0 < self.parser.read.idx() <= s.len(),
+                        digits_end(s, i0) == digits_end(s, self.parser.read.idx() as int),
+                        sview(*buf) == v0 + s.subrange(i0, self.parser.read.idx() as int),
+                    ensures !dig_at(s, self.parser.read.idx() as int),
+                        self.parser.pinv(), self.parser.same_doc(&old(self).parser), i0 < self.parser.read.idx() <= s.len(),
+                        digits_end(s, i0) == digits_end(s, self.parser.read.idx() as int),
+                        sview(*buf) == v0 + s.subrange(i0, self.parser.read.idx() as int),
+                    decreases s.len() - self.parser.read.idx(),
+//@after /^\s+buf\.push\(c as char\);/ #2
+                    proof {
+                        let k = self.parser.read.idx() as int;
+                        assert(s.subrange(i0, k) =~= s.subrange(i0, k - 1).push(s[k - 1]));
+                        assert((v0 + s.subrange(i0, k - 1)).push(s[k - 1]) =~= v0 + s.subrange(i0, k));
+                    }
 //@end
+
+    /// what deserialize_i128 / deserialize_u128 read from p (first non-whitespace byte) on: an optional `-` (signed only)
+    /// and the integer literal; its value
+    pub open spec fn i128_text_ok(s: Seq<u8>, p: int, signed: bool) -> bool {
+        let d = if signed && at(s, p, 0x2d) { p + 1 } else { p };
+        int128_lit(s, d)
+    }
+    pub open spec fn i128_text_end(s: Seq<u8>, p: int, signed: bool) -> int {
+        let d = if signed && at(s, p, 0x2d) { p + 1 } else { p };
+        int128_end(s, d)
+    }
+    pub open spec fn i128_text_val(s: Seq<u8>, p: int, signed: bool) -> int {
+        let d = if signed && at(s, p, 0x2d) { p + 1 } else { p };
+        if signed && at(s, p, 0x2d) { -dec_val(s, d, int128_end(s, d)) } else { dec_val(s, d, int128_end(s, d)) }
+    }
+    // the buffer built from `-`? and the literal's digits denotes the literal's value
+    pub proof fn lemma_buf_val(s: Seq<u8>, p: int, signed: bool, v: Seq<u8>)
+        requires 0 <= p < s.len(), Self::i128_text_ok(s, p, signed),
+            v == (if signed && at(s, p, 0x2d) { seq![0x2du8] } else { Seq::<u8>::empty() })
+                + s.subrange(if signed && at(s, p, 0x2d) { p + 1 } else { p }, Self::i128_text_end(s, p, signed)),
+        ensures int_text(v), int_text_val(v) == Self::i128_text_val(s, p, signed),
+    {
+        let neg = signed && at(s, p, 0x2d);
+        let d = if neg { p + 1 } else { p };
+        let e = int128_end(s, d);
+        lemma_digits_end_bounds(s, d);
+        lemma_digits_all(s, d);
+        let k: int = if neg { 1 } else { 0 };
+        assert(v.len() == k + (e - d));
+        assert forall|j: int| k <= j < v.len() implies is_digit(#[trigger] v[j]) by { assert(v[j] == s[d + (j - k)]); }
+        assert(neg ==> v[0] == 0x2d);
+        assert(!neg ==> v[0] == s[d]);
+        lemma_dec_val_shift(v, k, s, d, e - d);
+    }
 
 //@extract file=src/serde/de.rs impl="de::Deserializer<'de> for &'a mut Deserializer<R>" fn=deserialize_i128
 //@subst /fn deserialize_i128<V>\(self,/ => fn deserialize_i128<V>(&mut self,
+//@subst /let mut buf = String::new\(\);/ => let mut buf = string_new();
 //@subst /buf\.push\('-'\)/ => string_push(&mut buf, 0x2du8)
 //@subst /match buf\.parse\(\) \{/ => match parse_i128(&buf) {
 //@subst /Ok\(int\) => visitor\.visit_i128\(int\),/ => Ok(int_) => visitor.visit_i128(int_),
@@ -172,34 +268,61 @@ impl<'de, R: Reader<'de>> Deserializer<R> {
 //@sig
         requires old(self).parser.pinv(),
         ensures final(self).parser.pinv(), final(self).parser.same_doc(&old(self).parser),
-            // optional whitespace, an optional `-`, then an integer literal without leading zero; nothing more is read
-            res.is_ok() ==> ({
+            ({
                 let s = old(self).parser.read.data();
                 let p = ws_end(s, old(self).parser.read.idx() as int);
-                let d = if at(s, p, 0x2d) { p + 1 } else { p };
-                dig_at(s, d) && (s[d] == 0x30 ==> !dig_at(s, d + 1)) && final(self).parser.read.idx() == (if s[d] == 0x30 { d + 1 } else { digits_end(s, d) })
+                let val = Self::i128_text_val(s, p, true);
+                let fits = -0x8000_0000_0000_0000_0000_0000_0000_0000 <= val <= 0x7fff_ffff_ffff_ffff_ffff_ffff_ffff_ffff;
+                // optional whitespace, an optional `-`, an integer literal without leading zero that fits i128; nothing
+                // more is read, and the visitor gets exactly its value
+                &&& (res.is_ok() ==> p < s.len() && Self::i128_text_ok(s, p, true) && fits
+                        && final(self).parser.read.idx() == Self::i128_text_end(s, p, true) && res == visitor.on_i128(val as i128))
+                // and every such literal is accepted
+                &&& (p < s.len() && Self::i128_text_ok(s, p, true) && fits && visitor.on_i128(val as i128).is_ok() ==> res == visitor.on_i128(val as i128))
             }),
 //@body
         proof { lemma_ws_end_bounds(self.parser.read.data(), self.parser.read.idx() as int); }
+        let ghost s = self.parser.read.data();
+        let ghost p = ws_end(s, self.parser.read.idx() as int);
+//@before /let value = match/
+        proof { Self::lemma_buf_val(s, p, true, sview(buf)); }
 //@end
 
 //@extract file=src/serde/de.rs impl="de::Deserializer<'de> for &'a mut Deserializer<R>" fn=deserialize_u128
 //@subst /fn deserialize_u128<V>\(self,/ => fn deserialize_u128<V>(&mut self,
+//@subst /let mut buf = String::new\(\);/ => let mut buf = string_new();
 //@subst /match buf\.parse\(\) \{/ => match parse_u128(&buf) {
 //@subst /Ok\(int\) => visitor\.visit_u128\(int\),/ => Ok(int_) => visitor.visit_u128(int_),
 //@subst /V: de::Visitor<'de>,/ => V: Visitor<'de>,
 //@sig
         requires old(self).parser.pinv(),
         ensures final(self).parser.pinv(), final(self).parser.same_doc(&old(self).parser),
-            // optional whitespace, then an integer literal without sign and without leading zero
-            res.is_ok() ==> ({
+            ({
                 let s = old(self).parser.read.data();
                 let p = ws_end(s, old(self).parser.read.idx() as int);
-                dig_at(s, p) && (s[p] == 0x30 ==> !dig_at(s, p + 1)) && final(self).parser.read.idx() == (if s[p] == 0x30 { p + 1 } else { digits_end(s, p) })
+                let val = Self::i128_text_val(s, p, false);
+                let fits = val <= 0xffff_ffff_ffff_ffff_ffff_ffff_ffff_ffff;
+                // optional whitespace, then an unsigned integer literal without leading zero that fits u128
+                &&& (res.is_ok() ==> p < s.len() && Self::i128_text_ok(s, p, false) && fits
+                        && final(self).parser.read.idx() == Self::i128_text_end(s, p, false) && res == visitor.on_u128(val as u128))
+                &&& (p < s.len() && Self::i128_text_ok(s, p, false) && fits && visitor.on_u128(val as u128).is_ok() ==> res == visitor.on_u128(val as u128))
             }),
 //@body
         proof { lemma_ws_end_bounds(self.parser.read.data(), self.parser.read.idx() as int); }
+        let ghost s = self.parser.read.data();
+        let ghost p = ws_end(s, self.parser.read.idx() as int);
+//@before /let value = match/
+        proof { Self::lemma_buf_val(s, p, false, sview(buf)); Self::lemma_val_nonneg(s, p); }
 //@end
+
+    pub proof fn lemma_val_nonneg(s: Seq<u8>, p: int)
+        requires 0 <= p < s.len(), Self::i128_text_ok(s, p, false),
+        ensures Self::i128_text_val(s, p, false) >= 0,
+    {
+        lemma_digits_end_bounds(s, p);
+        lemma_digits_all(s, p);
+        lemma_dec_val_nonneg(s, p, int128_end(s, p));
+    }
 
 //@extract file=src/serde/de.rs impl="Deserializer<R>" fn=deserialize_number
 //@subst /self\.peek_invalid_type\(peek, &visitor\)/ => self.peek_invalid_type_v(peek)
@@ -260,6 +383,48 @@ impl<'de, 'a, R: Reader<'de>> MapKey<'a, R> {
                 let s = self.cur().parser.read.data();
                 let i = self.cur().parser.read.idx() as int;
                 numeric_key_end(s, i).is_some() && exact_int(s, i) && int_call(visitor, s, i).is_ok() ==> res == int_call(visitor, s, i)
+            }),
+//@body
+        proof { lemma_ws_end_at_nonws(self.cur().parser.read.data(), self.cur().parser.read.idx() as int); }
+//@end
+
+//@extract file=src/serde/de.rs macro=deserialize_numeric_key arm=2 call=deserialize_i128
+//@subst /V: de::Visitor<'de>,/ => V: Visitor<'de>,
+//@sig
+        requires self.cur().parser.pinv(),
+        ensures self.fut().parser.pinv(), self.fut().parser.same_doc(&self.cur().parser),
+            // an i128 key (the arm as the library really instantiates it): right after the opening quote an optional `-`
+            // and an integer literal that fits, then the closing quote; the visitor gets exactly its value — and every
+            // such key is accepted
+            ({
+                let s = self.cur().parser.read.data();
+                let i = self.cur().parser.read.idx() as int;
+                let val = Deserializer::<R>::i128_text_val(s, i, true);
+                let fits = -0x8000_0000_0000_0000_0000_0000_0000_0000 <= val <= 0x7fff_ffff_ffff_ffff_ffff_ffff_ffff_ffff;
+                let good = i < s.len() && (s[i] == 0x2d || is_digit(s[i])) && Deserializer::<R>::i128_text_ok(s, i, true) && fits
+                    && at(s, Deserializer::<R>::i128_text_end(s, i, true), 0x22);
+                &&& (res.is_ok() ==> good && self.fut().parser.read.idx() == Deserializer::<R>::i128_text_end(s, i, true) + 1 && res == visitor.on_i128(val as i128))
+                &&& (good && visitor.on_i128(val as i128).is_ok() ==> res == visitor.on_i128(val as i128))
+            }),
+//@body
+        proof { lemma_ws_end_at_nonws(self.cur().parser.read.data(), self.cur().parser.read.idx() as int); }
+//@end
+
+//@extract file=src/serde/de.rs macro=deserialize_numeric_key arm=2 call=deserialize_u128
+//@subst /V: de::Visitor<'de>,/ => V: Visitor<'de>,
+//@sig
+        requires self.cur().parser.pinv(),
+        ensures self.fut().parser.pinv(), self.fut().parser.same_doc(&self.cur().parser),
+            ({
+                let s = self.cur().parser.read.data();
+                let i = self.cur().parser.read.idx() as int;
+                let val = Deserializer::<R>::i128_text_val(s, i, false);
+                let fits = val <= 0xffff_ffff_ffff_ffff_ffff_ffff_ffff_ffff;
+                // a u128 key: `-` is an error here (serde_json: the digit check passes, the number is out of range)
+                let good = i < s.len() && is_digit(s[i]) && Deserializer::<R>::i128_text_ok(s, i, false) && fits
+                    && at(s, Deserializer::<R>::i128_text_end(s, i, false), 0x22);
+                &&& (res.is_ok() ==> good && self.fut().parser.read.idx() == Deserializer::<R>::i128_text_end(s, i, false) + 1 && res == visitor.on_u128(val as u128))
+                &&& (good && visitor.on_u128(val as u128).is_ok() ==> res == visitor.on_u128(val as u128))
             }),
 //@body
         proof { lemma_ws_end_at_nonws(self.cur().parser.read.data(), self.cur().parser.read.idx() as int); }
